@@ -100,8 +100,75 @@ fn case(sh: &mut Shard, family: &str, body: Vec<Stmt>) {
     }
 }
 
+/// Number texts with padding of every length: which non-canonical spellings `int` / `float` accept is U11, but
+/// whichever way that goes the answer is the number the text spells or an argument error — never ANOTHER
+/// number, never anything else. White space (blank, tab, newline) in front, behind and on both sides, and
+/// leading zeros, of every length 1..70 and around 100 / 128 / 256 / 1000 / 4096.
+fn padded_number_texts(sh: &mut Shard) {
+    let lens: Vec<usize> = (1..=70usize).chain([99, 100, 127, 128, 129, 255, 256, 257, 1000, 4096, 4097]).collect();
+    let numbers = ["0", "7", "2024", "-15", "1152921504606846975", "1.5", "-0.25", "100.0"];
+    for len in lens {
+        for (pname, pad) in [("blanks", " "), ("tabs", "\t"), ("newlines", "\n"), ("zeros", "0")] {
+            for side in 0..3 {
+                for num in numbers {
+                    for builtin in ["int", "float"] {
+                        if builtin == "int" && num.contains('.') {
+                            continue;
+                        }
+                        if !sh.mine() {
+                            continue;
+                        }
+                        let p = pad.repeat(len);
+                        let text = if pad == "0" {
+                            // zeros go between the sign and the digits (and, for side 1, behind a fraction)
+                            let (sign, digits) = if let Some(d) = num.strip_prefix('-') { ("-", d) } else { ("", num) };
+                            match side {
+                                0 => format!("{sign}{p}{digits}"),
+                                1 if num.contains('.') => format!("{num}{p}"),
+                                _ => continue,
+                            }
+                        } else {
+                            match side {
+                                0 => format!("{p}{num}"),
+                                1 => format!("{num}{p}"),
+                                _ => format!("{p}{num}{p}"),
+                            }
+                        };
+                        let escaped = text.replace('\t', "\\t").replace('\n', "\\n");
+                        let prog = format!("{builtin}(\"{escaped}\")");
+                        sh.begin(&|| format!("{builtin} of {num} padded with {len} {pname} (side {side})"));
+                        sh.count("family:padded-number-texts");
+                        sh.nontrivial(&(builtin, num, pname, len, side));
+                        check_padded(sh, builtin, num, &prog);
+                    }
+                }
+            }
+        }
+    }
+}
+
+fn check_padded(sh: &mut Shard, builtin: &str, num: &str, prog: &str) {
+    use crate::outcome::{run_text, ImplEnd};
+    use crate::refint::ErrKind;
+    let expected = if builtin == "int" { num.to_string() } else { crate::refint::render_float(num.parse::<f64>().unwrap()) };
+    let o = run_text(prog, RunOpts { budget: Some(20_000), ledger: LEDGER.with(|c| c.get()), trace: false, render: true });
+    let ok = match &o.end {
+        ImplEnd::Value(v) => *v == expected,
+        ImplEnd::Error(k) => *k == ErrKind::Argument,
+        _ => false,
+    };
+    if !ok {
+        sh.violation(
+            "padded-number-texts",
+            json!({"program": prog, "padded": {"builtin": builtin, "number": num}}),
+            format!("{builtin} of the number text {num:?} with padding ({} bytes in all): {}, expected {expected} or an argument error", prog.len(), crate::common::impl_end_text(&o.end)),
+        );
+    }
+}
+
 fn run(sh: &mut Shard) {
     LEDGER.with(|c| c.set(false));
+    padded_number_texts(sh);
     run_tables(sh);
     LEDGER.with(|c| c.set(true));
     run_tables(sh);
@@ -356,6 +423,10 @@ fn run_tables(sh: &mut Shard) {
 
 fn replay(sh: &mut Shard, case: &Value) {
     sh.mine();
+    if let (Some(b), Some(n), Some(p)) = (case["padded"]["builtin"].as_str(), case["padded"]["number"].as_str(), case["program"].as_str()) {
+        check_padded(sh, b, n, p);
+        return;
+    }
     if let Some(p) = case["program"].as_str() {
         crate::common::differential_text(sh, "replay", p, None, opts());
     }
